@@ -13,8 +13,8 @@ use std::sync::atomic::{AtomicBool, Ordering};
 use std::sync::Arc;
 
 use sqlgrep::execution::execution_engine::ExecutionEngine;
-use sqlgrep::executor::{DisplayOptions, FileExecutor, OutputFormat};
-use sqlgrep::helpers::verif_hooks::set_on_line_hook;
+use sqlgrep::executor::{DisplayOptions, FileExecutor, FollowFileExecutor, OutputFormat};
+use sqlgrep::helpers::verif_hooks::{set_follow_retry_hook, set_on_line_hook};
 
 use crate::c04::join_lines;
 use crate::c05::{defs, gen_join_spec, gen_stmt, gen_t_line, gen_u_line, model_case, Kind};
@@ -101,6 +101,105 @@ pub fn run_files_intr(p: &Prepared, files: &[Vec<u8>], clear: Clear) -> IntrResu
         Caught::Panic(_) => "panic".to_owned(),
     };
     IntrResult { res: BatchResult { status, total_lines, printed }, join_calls: join_calls.get(), batch_calls_at_clear: at_clear.get(), cleared: cleared.get() }
+}
+
+// ---------- follow mode ----------
+
+/// run `f` with the process's stdout (fd 1) redirected into a file; returns what was written
+fn capture_stdout<F: FnOnce()>(f: F) -> Vec<u8> {
+    use std::io::Write;
+    use std::os::unix::io::AsRawFd;
+    let _ = std::io::stdout().flush();
+    let path = tmp_file(b"");
+    let file = std::fs::OpenOptions::new().write(true).truncate(true).open(&path).unwrap();
+    let saved = unsafe { libc::dup(1) };
+    unsafe { libc::dup2(file.as_raw_fd(), 1); }
+    f();
+    let _ = std::io::stdout().flush();
+    unsafe { libc::dup2(saved, 1); libc::close(saved); }
+    drop(file);
+    let out = std::fs::read(&path).unwrap_or_default();
+    let _ = std::fs::remove_file(path);
+    out
+}
+
+/// the real `FollowFileExecutor` (`--follow --head`) over a file that holds the first `k` lines when the run starts;
+/// when the reader reaches its end the retry hook clears the `running` flag and appends the remaining lines
+/// (`clear_at = None`: the file holds all lines and the flag is never cleared). Returns status and printed lines.
+pub fn run_follow(p: &Prepared, lines: &[String], clear_at: Option<usize>) -> (String, Vec<String>) {
+    let k = clear_at.unwrap_or(lines.len()).min(lines.len());
+    let interrupt = clear_at.map(|c| c < lines.len()).unwrap_or(false);
+    let path = tmp_file(&join_lines(&lines[..k]));
+    let rest = join_lines(&lines[k..]);
+    let running = Arc::new(AtomicBool::new(true));
+    {
+        let (running, path, calls) = (running.clone(), path.clone(), Cell::new(0usize));
+        set_follow_retry_hook(Some(Box::new(move || {
+            calls.set(calls.get() + 1);
+            if interrupt && calls.get() == 1 {
+                use std::io::Write;
+                running.store(false, Ordering::SeqCst);
+                let mut f = std::fs::OpenOptions::new().append(true).open(&path).unwrap();
+                f.write_all(&rest).unwrap();
+                true
+            } else {
+                false
+            }
+        })));
+    }
+    let mut status = String::new();
+    let out = capture_stdout(|| {
+        let res = catch(|| -> Result<(), String> {
+            let file = File::open(&path).map_err(|_| "err:FailOpenFile".to_owned())?;
+            let display = DisplayOptions { output_format: OutputFormat::Text, single_result: false, print_result: true };
+            let engine = ExecutionEngine::new(&p.tables, &p.statement);
+            let mut executor = FollowFileExecutor::new(running.clone(), file, true, display, engine).map_err(|_| "err:Io".to_owned())?;
+            executor.execute().map_err(|e| format!("err:{}", exec_err_kind(&e)))
+        });
+        status = match res {
+            Caught::Done(Ok(())) => "ok".to_owned(),
+            Caught::Done(Err(e)) => e,
+            Caught::Panic(_) => "panic".to_owned(),
+        };
+    });
+    set_follow_retry_hook(None);
+    let _ = std::fs::remove_file(path);
+    let text = String::from_utf8_lossy(&out).replace("\x1B[2J\x1B[1;1H", "");
+    let mut printed: Vec<String> = text.split('\n').map(|s| s.to_owned()).collect();
+    if printed.last().map(|l| l.is_empty()).unwrap_or(false) { printed.pop(); }
+    (status, printed)
+}
+
+fn follow_wire(status: &str, printed: &[String]) -> String {
+    format!("{} out={}", status, printed.iter().map(|l| crate::util::hex(l.as_bytes())).collect::<Vec<_>>().join(","))
+}
+
+/// follow mode at every delivered-line boundary: correspondence (`followi`) and the property on the implementation
+fn check_follow(run: &mut Run, prepared: &Prepared, lines: &[String], desc: &str, shape: &str) {
+    let (ustatus, uprinted) = run_follow(prepared, lines, None);
+    for k in 0..=lines.len() {
+        let clear = if k < lines.len() { Some(k) } else { None };
+        let (status, printed) = if clear.is_some() { run_follow(prepared, lines, clear) } else { (ustatus.clone(), uprinted.clone()) };
+        run.count("point:follow");
+        let d = format!("follow {} clear_before_delivered_line={:?}", desc, clear);
+        if let Some(case) = model_case("followi", prepared, None, &[join_lines(lines)], &format!(" {}", match clear { Some(k) => k.to_string(), None => "(none)".to_owned() })) {
+            let tag = format!("follow|{}|{}|{}|recs{}", shape, if clear.is_none() { "never" } else if k == 0 { "at0" } else { "mid" }, status, printed.len().min(3));
+            run.case_with_desc(case, follow_wire(&status, &printed), tag, d.clone());
+        }
+        run.oracle_checks += 1;
+        if status == "panic" { run.fail(d.clone(), "panic:interrupt", "the interrupted follow run panicked".to_owned()); continue; }
+        if clear.is_none() { continue; }
+        // no further delivered line is consumed, no error from the interruption: the run over the first k lines
+        let (pstatus, pprinted) = run_follow(prepared, &lines[..k], None);
+        if status != pstatus {
+            run.fail(d.clone(), "interrupt-changes-outcome", format!("interrupted follow run answered {} but a run over the {} lines delivered before answers {}", status, k, pstatus));
+        } else if printed != pprinted {
+            run.fail(d.clone(), "line-consumed-after-interrupt", format!("interrupted follow run printed {:?} but a run over the {} lines delivered before prints {:?}", printed, k, pprinted));
+        }
+        if !is_prefix(&printed, &uprinted) {
+            run.fail(d.clone(), "interrupted-output-not-a-prefix", format!("printed {:?}, uninterrupted follow run prints {:?}", printed, uprinted));
+        }
+    }
 }
 
 /// the first k lines of the input files (file boundaries kept)
@@ -252,6 +351,10 @@ pub fn run(p: &Params) -> Run {
             ms.sort(); ms.dedup();
             for m in ms { check_point(&mut run, &base, &unint, Clear::Join(m)); }
         }
+        // follow mode (joins are refused there): every delivered-line boundary
+        if !with_join && bi % 4 == 0 && nm <= 8 {
+            check_follow(&mut run, &prepared, &main, &desc, &shape);
+        }
         // a printer that clears the flag after its n-th line
         let np = unint.printed.len();
         if np > 0 {
@@ -261,7 +364,9 @@ pub fn run(p: &Params) -> Run {
         }
     }
     set_on_line_hook(None);
+    set_follow_retry_hook(None);
     let _ = std::fs::remove_file(jpath);
+    run.notes.push("follow mode: the real FollowFileExecutor (--head) over a growing file; its retry hook at end-of-file clears the flag and appends the remaining lines, stdout (fd 1) is captured; compared with runFollow of the model (`followi`) and with the implementation's own run over the first k lines".to_owned());
     run.notes.push("statements (SELECT, DISTINCT, LIMIT, aggregates; half of them over an INNER/OUTER JOIN) x 0-10 input lines in 1-3 files x joined files of 0-34 lines; the running flag is cleared from the per-line hook before every input line k, before joined-file lines around the loader's sampling points (0, 9, 10, 11, 20, 21, 30, random), and from the capturing printer after its 1st / a random / its last line".to_owned());
     run.notes.push("oracle on the implementation: total_lines = k (never more), interrupted output is a prefix of the uninterrupted implementation run (non-aggregate), interrupted aggregate output = implementation batch run over the first k lines, status = status of that run, loader looks at no more than 11 further lines".to_owned());
     run
